@@ -165,6 +165,18 @@ pub fn set_sentinel(root: &Path) {
     rec(root);
 }
 
+/// set atime and mtime of `path` (not following links) to SENTINEL + `offset_s` seconds
+pub fn touch_at(path: &Path, offset_s: i64) {
+    let c = CString::new(path.as_os_str().as_bytes()).unwrap();
+    let ts = [
+        libc::timespec { tv_sec: SENTINEL_S + offset_s, tv_nsec: 0 },
+        libc::timespec { tv_sec: SENTINEL_S + offset_s, tv_nsec: 0 },
+    ];
+    unsafe {
+        libc::utimensat(libc::AT_FDCWD, c.as_ptr(), ts.as_ptr(), libc::AT_SYMLINK_NOFOLLOW);
+    }
+}
+
 pub fn touch_sentinel(path: &Path) {
     let c = CString::new(path.as_os_str().as_bytes()).unwrap();
     let ts = [
